@@ -244,6 +244,20 @@ def run_case(case, R):
             continue
         wrong = int((fp.argmax(axis=-2) != lab).sum())
         R.check('C03.argmax', wrong == 0, f'argmax/{kind}/fit_predict', f'{kind}.fit_predict({it} iterations): {wrong} observations misassigned', wrong=wrong, iters=it)
+    # the very first M-steps: the start is at most lightly blurred (<= 0.1 for the models with a class covariance), so the class
+    # scatter is dominated by the class's own observations whatever their levels and the principal eigenvector is within ~0.25 rad of
+    # the planted line already (a loose bound: the sharp one below needs hard posteriors)
+    if kind in ('cacgmm', 'gcacgmm', 'vmfcacgmm') and case['blur'] <= 0.1:
+        for e in ev[:2]:
+            m_ = e.get('model')
+            if m_ is None or not hasattr(m_, 'cacg'):
+                continue
+            U = np.asarray(m_.cacg.covariance_eigenvectors); lam = np.asarray(m_.cacg.covariance_eigenvalues)
+            if not (np.isfinite(U).all() and np.isfinite(lam).all()):
+                continue
+            top = np.take_along_axis(U, lam.argmax(-1)[..., None, None], axis=-1)[..., 0]
+            c = np.abs(np.einsum('...d,...d->...', top.conj(), truth['spatial']))
+            R.check('C03.params', float(c.min()) >= 0.9, f'prototype/{kind}/cacg-first-steps', f'cACG principal eigenvector after M-step {e["iteration"]} far off the planted line: |cos| = {c.min():.4f}', cos=float(c.min()), blur=case['blur'])
     # parameters point at the prototypes --------------------------------------------------------------------
     # The model after iteration 1 is the M-step of the *blurred* start and legitimately points at blurred
     # prototypes; the clause is judged once the in-loop posteriors have become (nearly) hard.
